@@ -320,6 +320,136 @@ fn check(ctx: &mut Ctx, c: &Case) {
     ctx.scratch.discard(&parent);
 }
 
+/// Sources *outside* the base directory whose absolute path merely starts with the base's
+/// characters (`site` vs `site-common`): reached as a named input and as a dependency. The command
+/// runs in the source's directory and TXTPP_FILE designates the source (absolute, or resolving from
+/// the base directory or from the command's working directory).
+fn outside_base(ctx: &mut Ctx, r: &mut StdRng) {
+    let parent = ctx.scratch.fresh();
+    let base_name = ["site", "a", "proj.d"][r.gen_range(0..3)];
+    let sibling = format!("{base_name}{}", ["-common", "2", ".bak", "_x/in"][r.gen_range(0..4)]);
+    let base = parent.join(base_name);
+    let body = "-TXTPP#run pwd -P\n=\n-TXTPP#run echo \"$TXTPP_FILE\"\n";
+    let mut files = Files::new();
+    files.insert(format!("{sibling}/footer.txt.txtpp"), body.as_bytes().to_vec());
+    files.insert(format!("{base_name}/inside.txt.txtpp"), body.as_bytes().to_vec());
+    let up = "../".repeat(1);
+    files.insert(format!("{base_name}/page.txt.txtpp"), format!("-TXTPP#include {up}{sibling}/footer.txt\npage\n").into_bytes());
+    materialize(&parent, &files, &[]);
+    let as_dependency = r.gen_bool(0.5);
+    let via_cli = r.gen_bool(0.3);
+    let inputs: Vec<String> = if as_dependency { vec!["page.txt".into(), "inside.txt".into()] } else { vec![format!("../{sibling}/footer.txt"), "inside.txt.txtpp".into()] };
+    let threads = [1usize, 2, 4][r.gen_range(0..3)];
+    let cj = json!({"kind": "outside-base", "base": base_name, "sibling": sibling, "as_dependency": as_dependency, "via_cli": via_cli, "threads": threads});
+    let cfg = RunCfg { base: base.clone(), inputs, mode: Mode::Build, threads, recursive: false, trailing: true, shell: String::new() };
+    let ok = if via_cli {
+        let o = run_cli(&base, &cfg.cli_args(), &CliOpts::default());
+        if o.timed_out {
+            ctx.inconclusive("CLI watchdog (outside base)");
+            ctx.scratch.discard(&parent);
+            return;
+        }
+        o.code == Some(0)
+    } else {
+        let o = run_inproc(&cfg, Spec::Free { delay: None }, Some(&base), false);
+        let _ = std::env::set_current_dir("/");
+        if matches!(o.verdict, Verdict::Watchdog) {
+            ctx.inconclusive("watchdog (outside base)");
+            ctx.scratch.discard(&parent);
+            return;
+        }
+        o.verdict.is_ok()
+    };
+    ctx.evals += 1;
+    ctx.count("sources_outside_the_base_directory", 1);
+    if !ok {
+        ctx.violation("C17:run-failed:outside-base", "build with a run command in a source outside the base directory failed".to_string(), cj);
+        ctx.scratch.discard(&parent);
+        return;
+    }
+    for (src_rel, label) in [(format!("{sibling}/footer.txt.txtpp"), "outside"), (format!("{base_name}/inside.txt.txtpp"), "inside")] {
+        let abs = parent.join(&src_rel);
+        let dir = abs.parent().unwrap().to_path_buf();
+        let out = String::from_utf8_lossy(&std::fs::read(parent.join(&src_rel[..src_rel.len() - 6])).unwrap_or_default()).to_string();
+        let mut parts = out.split("=\n");
+        let pwd = parts.next().unwrap_or("").trim_end().to_string();
+        let file = parts.next().unwrap_or("").trim_end().to_string();
+        if pwd != dir.to_string_lossy() {
+            ctx.violation("C17:wrong-working-directory:outside-base", format!("`pwd -P` in {src_rel} ({label} the base {base_name}) printed {pwd:?}, expected {:?}", dir), cj.clone());
+        }
+        let p = Path::new(&file);
+        let designates = !file.is_empty() && ((p.is_absolute() && p.canonicalize().ok() == abs.canonicalize().ok()) || base.join(p).canonicalize().ok() == abs.canonicalize().ok() || dir.join(p).canonicalize().ok() == abs.canonicalize().ok());
+        if !designates {
+            ctx.violation("C17:txtpp-file-wrong:outside-base", format!("TXTPP_FILE={file:?} does not designate {src_rel} ({label} the base directory {})", base.display()), cj.clone());
+        }
+    }
+    ctx.distinct.insert(crate::util::hash_str(&cj.to_string()));
+    ctx.scratch.discard(&parent);
+}
+
+/// Directory names that are not valid UTF-8 (Latin-1 `caf\xe9`): at, below and above the base
+/// directory. The command must run in the source's directory (observed as a hex dump of `pwd -P`).
+fn raw_directory(ctx: &mut Ctx, r: &mut StdRng) {
+    use std::os::unix::ffi::{OsStrExt, OsStringExt};
+    let parent = ctx.scratch.fresh();
+    let raw = std::ffi::OsString::from_vec([&b"caf\xe9"[..], &b"na\xefve dir"[..], &b"\xff\xfe"[..]][r.gen_range(0..3)].to_vec());
+    let position = r.gen_range(0..3u8);
+    // (base directory, source directory)
+    let (base, src_dir): (PathBuf, PathBuf) = match position {
+        0 => (parent.join(&raw), parent.join(&raw)),
+        1 => (parent.join("proj"), parent.join("proj").join(&raw).join("deep")),
+        _ => (parent.join(&raw).join("proj"), parent.join(&raw).join("proj").join("a")),
+    };
+    if std::fs::create_dir_all(&src_dir).is_err() || std::fs::create_dir_all(&base).is_err() {
+        ctx.count("raw_directory_names_refused_by_the_file_system", 1);
+        ctx.scratch.discard(&parent);
+        return;
+    }
+    let hexdump = "od -An -v -tx1 | tr -d ' \\n'";
+    let body = format!("begin\n-TXTPP#run pwd -P | {hexdump}\n\nend\n");
+    let _ = std::fs::write(src_dir.join("s.txt.txtpp"), body);
+    let via_cli = r.gen_bool(0.4);
+    let threads = [1usize, 2][r.gen_range(0..2)];
+    let pos_name = ["base itself", "below the base", "above the base"][position as usize];
+    let cj = json!({"kind": "raw-directory", "name": raw.to_string_lossy(), "position": pos_name, "via_cli": via_cli, "threads": threads});
+    let cfg = RunCfg { base: base.clone(), inputs: vec![".".into()], mode: Mode::Build, threads, recursive: true, trailing: true, shell: String::new() };
+    let (ok, note) = if via_cli {
+        let o = run_cli(&base, &cfg.cli_args(), &CliOpts::default());
+        if o.timed_out {
+            ctx.inconclusive("CLI watchdog (raw directory)");
+            ctx.scratch.discard(&parent);
+            return;
+        }
+        (o.code == Some(0), o.short())
+    } else {
+        let o = run_inproc(&cfg, Spec::Free { delay: None }, Some(&base), false);
+        let _ = std::env::set_current_dir("/");
+        if matches!(o.verdict, Verdict::Watchdog) {
+            ctx.inconclusive("watchdog (raw directory)");
+            ctx.scratch.discard(&parent);
+            return;
+        }
+        (o.verdict.is_ok(), o.verdict.short())
+    };
+    ctx.evals += 1;
+    ctx.count("sources_below_non_utf8_directory_names", 1);
+    if !ok {
+        ctx.violation("C17:run-failed:non-utf8-directory", format!("a run command in a source whose path contains a directory name that is not valid UTF-8 failed: {note}"), cj);
+        ctx.scratch.discard(&parent);
+        return;
+    }
+    let out = String::from_utf8_lossy(&std::fs::read(src_dir.join("s.txt")).unwrap_or_default()).to_string();
+    let got = out.lines().nth(1).unwrap_or("").trim().to_string();
+    let mut want_bytes = src_dir.as_os_str().as_bytes().to_vec();
+    want_bytes.push(b'\n');
+    let want: String = want_bytes.iter().map(|b| format!("{b:02x}")).collect();
+    if got != want {
+        ctx.violation("C17:wrong-working-directory:non-utf8-directory", format!("hex dump of `pwd -P` is {got}, expected {want} ({})", src_dir.display()), cj.clone());
+    }
+    ctx.distinct.insert(crate::util::hash_str(&cj.to_string()));
+    ctx.scratch.discard(&parent);
+}
+
 fn guard_checks(ctx: &mut Ctx) {
     // the binary refuses to start when TXTPP_FILE is set
     let root = ctx.scratch.fresh();
@@ -392,6 +522,12 @@ fn run(ctx: &mut Ctx) {
             mode: if r.gen_bool(0.2) { Mode::InMemoryBuild } else { Mode::Build },
         };
         check(ctx, &c);
+        if i % 8 == 2 {
+            outside_base(ctx, &mut r);
+        }
+        if i % 8 == 6 {
+            raw_directory(ctx, &mut r);
+        }
         if i == 0 {
             ctx.sample(|| c.json());
         }
@@ -401,6 +537,17 @@ fn run(ctx: &mut Ctx) {
 fn replay(ctx: &mut Ctx, v: &Value) {
     if v["kind"].as_str() == Some("guard") {
         guard_checks(ctx);
+        return;
+    }
+    if v["kind"].as_str() == Some("outside-base") || v["kind"].as_str() == Some("raw-directory") {
+        let mut r = StdRng::seed_from_u64(17);
+        for _ in 0..40 {
+            if v["kind"].as_str() == Some("outside-base") {
+                outside_base(ctx, &mut r);
+            } else {
+                raw_directory(ctx, &mut r);
+            }
+        }
         return;
     }
     check(ctx, &Case::from(v));
